@@ -15,7 +15,7 @@ namespace DriverOps
 def parseOptInt (s : String) : Option (Option Int) :=
   if s = "n" then some none else s.toInt?.map some
 
-def showNats (xs : List Nat) : String := ",".intercalate (xs.map toString)
+private def showNats (xs : List Nat) : String := ",".intercalate (xs.map toString)
 
 def bit (b : Bool) : String := if b then "1" else "0"
 
